@@ -1,6 +1,7 @@
 package checks
 
 import (
+	"fmt"
 	"context"
 	"reflect"
 
@@ -89,6 +90,19 @@ const c03IncludeMixedPointerTypesCase = true
 
 const c03MixedPtrWhere = "deepcopy:plain-and-defined-pointer-to-one-node"
 
+// c03ValCycA / c03ValCycB: a cycle through an interface holding a struct value and a plain pointer field.
+type c03ValCycA struct {
+	Name string
+	I    interface{}
+}
+
+type c03ValCycB struct {
+	PA *c03ValCycA
+	N  int
+}
+
+const c03ValCycKey = "crash-stack-overflow:cycle-through-a-struct-value-held-in-an-interface"
+
 func c03RunCustom(w *fw.Worker, i int, fc *c03FixedCase) {
 	switch fc.Custom {
 	case "mixed-pointer-types":
@@ -116,6 +130,33 @@ func c03RunCustom(w *fw.Worker, i int, fc *c03FixedCase) {
 		if !reflect.DeepEqual(v, def) || v.Head == a || v.Head.Next.Next != v.Head {
 			w.Violation(i, "not-deep-equal:config:recursive-pointer-type", "the 2-cycle of list nodes in the defaults did not come back deeply equal, fresh and still a cycle", map[string]any{"fixed": fc.Name})
 		}
+	case "iface-held-struct-value-cycle":
+		// a.I = B{PA: a}: the cycle closes through a plain pointer field of a struct VALUE held in an interface
+		mk := func() *c03ValCycA {
+			a := &c03ValCycA{Name: "a"}
+			a.I = c03ValCycB{PA: a, N: 3}
+			return a
+		}
+		def, twin := mk(), mk()
+		d, err := dials.Config(context.Background(), def)
+		w.Count("b_scenarios", 1)
+		if err != nil {
+			w.Violation(i, "config-error:iface-held-struct-value-cycle", err.Error(), map[string]any{"fixed": fc.Name})
+			return
+		}
+		v := d.View()
+		b, ok := v.I.(c03ValCycB)
+		if !ok || v.Name != twin.Name || b.N != 3 {
+			w.Violation(i, "not-deep-equal:config:iface-held-struct-value-cycle", fmt.Sprintf("view %+v", v), map[string]any{"fixed": fc.Name})
+			return
+		}
+		if b.PA != v {
+			w.Violation(i, "split:ptr:config:iface-held-struct-value-cycle", "the pointer inside the interface-held struct value no longer leads back to the config itself: the cycle was not kept", map[string]any{"fixed": fc.Name})
+			return
+		}
+		if v == def || b.PA == def {
+			w.Violation(i, "not-fresh:config:iface-held-struct-value-cycle", "the view is (or points back at) the caller's defaults", map[string]any{"fixed": fc.Name})
+		}
 	case "typed-slice-self":
 		in, exp := c03BuildSelfSlice(), c03BuildSelfSlice()
 		out := dials.VerifDeepCopy(reflect.ValueOf(in))
@@ -128,6 +169,7 @@ func c03RunCustom(w *fw.Worker, i int, fc *c03FixedCase) {
 func c03Fixed() []c03FixedCase {
 	var out []c03FixedCase
 	out = append(out, c03FixedCase{Name: "config/type-with-direct-self-referential-pointer-field", Custom: "recursive-pointer-type-config", CrashKey: c03RecursiveTypeKey})
+	out = append(out, c03FixedCase{Name: "config/cycle-through-a-struct-value-held-in-an-interface", Custom: "iface-held-struct-value-cycle", CrashKey: c03ValCycKey})
 	if c03IncludeTypedSliceSelfCase {
 		out = append(out, c03FixedCase{Name: "typed-slice-reaching-itself-through-its-by-value-element", Custom: "typed-slice-self", CrashKey: c03TypedSliceSelfKey})
 	}
